@@ -197,12 +197,12 @@ HYB_RULE = ("random histories on a real hybrid Store (secondary cache scripted, 
             "FIFO or overtaking order): Set/SetWithTTL/Get-with-promotion/loading Get/Delete, evictions handed to the worker, secondary Set failing "
             "in 20-30% of the worker steps, MaxSize 2..15; non-trivial = >= 3 steps; distinct = sha1 of the case")
 HYB_TB = STORE_TB + ["hook H4 (worker schedule points)", "admission probability 1 and a hand-off queue that never fills (256) in the exercised cases"]
-PROPS["C14"] = {"props_files": ["Props/C14.v"], "go_tests": ["TestVerifHybrid", "TestVerifHybridSlow", "TestVerifSlowSecondaryDeadline"], "level": "proof",
+PROPS["C14"] = {"props_files": ["Props/C14.v"], "go_tests": ["TestVerifHybrid", "TestVerifHybridSlow", "TestVerifSlowSecondaryDeadline", "TestVerifHybridPool"], "level": "proof",
                 "rule": HYB_RULE + "; plus scenario runs with the real maintenance goroutine and worker in which the secondary Set of an evicted entry is held open while a foreground Set or Delete of the same key is issued",
-                "impl_only_traces": ["hybridslow", "slowsecdeadline"], "trusted_base": HYB_TB,
+                "impl_only_traces": ["hybridslow", "slowsecdeadline", "hybridpool"], "trusted_base": HYB_TB,
                 "assumptions": ["secondary operations are atomic with respect to the shard lock as in the code (Get/Set/Delete under the shard lock or by the single worker)"],
                 "monitor_tags": ["C14"], "explanation": "hybrid extension of the store model; every read compared with the real hybrid store and with a last-completed-write shadow"}
-PROPS["C15"] = {"props_files": ["Props/C15.v"], "go_tests": ["TestVerifHybrid", "TestVerifHybridSlow"], "impl_only_traces": ["hybridslow"], "level": "proof",
+PROPS["C15"] = {"props_files": ["Props/C15.v"], "go_tests": ["TestVerifHybrid", "TestVerifHybridSlow", "TestVerifHybridPool"], "impl_only_traces": ["hybridslow", "hybridpool"], "level": "proof",
                 "rule": HYB_RULE + "; plus scenario runs with the real maintenance goroutine and worker in which the secondary Set of an evicted entry is held open and the key is read meanwhile",
                 "trusted_base": HYB_TB,
                 "assumptions": ["admission probability 1, hand-off queue not full"],
